@@ -138,3 +138,44 @@ func (fx *Fx) recoverCall(st *State) Val {
 	st.panicked = true // recovered: the frame returns normally with its named results
 	return v
 }
+
+// ---------- contexts ----------
+
+// noteCtxDone: receiving from ctx.Done() means the context is done; ctx.Err() is then non-nil.
+func (fx *Fx) noteCtxDone(st *State, c Val) {
+	const pre = "(|ctxdone_chan| "
+	if strings.HasPrefix(c.X, pre) && strings.HasSuffix(c.X, ")") {
+		ctx := c.X[len(pre) : len(c.X)-1]
+		g := st.ghost["ctxdone"]
+		if g.X == "" {
+			g = Val{S: "(Array Ref Bool)", X: fx.d.declareConst("ctxdone@0", "(Array Ref Bool)")}
+		}
+		st.ghost["ctxdone"] = Val{S: g.S, X: app("store", g.X, ctx, "true")}
+		fx.assumed["context.Context: once Done() is closed Err() is non-nil"] = true
+	}
+}
+
+func (fx *Fx) ctxMethod(st *State, recv string, meth string, sig *types.Signature) ([]Val, bool) {
+	switch meth {
+	case "Done":
+		f := fx.d.declareFun("ctxdone_chan", []string{SRef}, SRef)
+		return []Val{{T: sig.Results().At(0).Type(), S: SRef, X: app(f, recv)}}, true
+	case "Err":
+		r := fx.freshVal(st, "ctxerr", sig.Results().At(0).Type())
+		g := st.ghost["ctxdone"]
+		if g.X == "" {
+			g = Val{S: "(Array Ref Bool)", X: fx.d.declareConst("ctxdone@0", "(Array Ref Bool)")}
+			st.ghost["ctxdone"] = g
+		}
+		st.assume(implies(app("select", g.X, recv), not(app("=", r.X, "nil"))))
+		fx.older(st, r.X)
+		return []Val{r}, true
+	}
+	return nil, false
+}
+
+// ---------- channel message invariants (declared per struct field holding the channel) ----------
+
+func (fx *Fx) checkChanInvariant(st *State, c, v Val, what string) {}
+
+func (fx *Fx) assumeChanInvariant(st *State, c, v Val, ok string, what string) {}
